@@ -142,6 +142,8 @@ def run_bind(c: dict) -> dict:
         bound = fresh.with_values(*args).with_values(**kw) if c["split"] else fresh.with_values(*args, **kw)
         if c.get("kw2"):                      # a later call re-binds parameters (possibly to None)
             bound = bound.with_values(**{k: val(v) for k, v in c["kw2"]})
+        for call in c.get("calls", []):       # further calls re-bind positions and names
+            bound = bound.with_values(*[val(a) for a in call["args"]], **{k: val(v) for k, v in call["kw"]})
         b = {"ok": True, "task": dump_task(bound), "error": ""}
     except Exception as e:
         return {"fresh_before": before, "fresh_after": dump_task(fresh),
@@ -216,7 +218,8 @@ def run(ctx):
                 "keyword) or default is structured - dataclass / pydantic / namedtuple instance, OrderedDict, defaultdict, "
                 "set, frozenset, tuple, bytes, nested list/dict - compared by type and value; !Edge4: two and three distinct edges fanning out of one producer (one int output, or hand-made with "
                 "outputs int/str, str/int) in every order, from a pool of well-formed edges and one edge per fault (unknown "
-                "output, incompatible type, unknown parameter, unknown sink task); !Edge3/!Bind3: callables that additionally have a positional-only parameter, *args (named "
+                "output, incompatible type, unknown parameter, unknown sink task); !Bind6: two or three successive with_values calls re-binding one or both positions and a "
+                "keyword already bound (the later call wins per position and name); !Edge3/!Bind3: callables that additionally have a positional-only parameter, *args (named "
                 "'args' or like the dangling edge name) and/or **kwargs, with keyword edges named like those; !Edge2: two edges (consumer <= {consts['MaxP2']} parameters); all enumerated by TLC; non-trivial = "
                 "binds a value or has an edge; TLC evaluates Builder!Post on every (case, dumps of the builders' results)",
         "clauses": ["build_raised_on_dangling_sink_task", "build_raised_on_other_dangling_edge", "build_raised_on_unannotated_source",
